@@ -22,11 +22,14 @@ def make_items(seed, n):
     items = []
     i = 0
     while len(items) < n:
-        st, el = gen_rich.gen_rich(seed * 7919 + i, loops=True, funcs=False)
+        st, el = gen_rich.gen_rich(seed * 7919 + i, loops=True, funcs=False, local_state=(i % 3 == 1))
         i += 1
         if not any(s[0] == "for" for s in st) or max(fa.unfolded_size(el.flat)) > 300:
             continue
-        items.append(engine.Item(len(items), el.flat, text=fr.text(st), entities=el.entities))
+        it = engine.Item(len(items), el.flat, text=fr.text(st), entities=el.entities, mems=el.mems or None)
+        # known finding S5: a memory declared in a loop body is one cell shared by all iterations
+        it.s5 = bool(el.renamed_cells)
+        items.append(it)
     return items
 
 
